@@ -60,6 +60,19 @@ func (or *oracle) checkSeq(items []item, pre, post *snap, hist, step int) {
 	cur := cloneSnap(pre)
 	calls := 0
 	var last *opx
+	// a transaction with a call tree counts as the sequence of the calls of its surviving frames
+	trees := 0
+	var flat []item
+	for _, it := range items {
+		if it.o.kind == kTree {
+			trees++
+			last = it.o
+			flat = append(flat, or.treeItems(it, hist, step)...)
+		} else {
+			flat = append(flat, it)
+		}
+	}
+	items = flat
 	for _, it := range items {
 		o, ob := it.o, it.ob
 		if o.kind == kEnvSupply {
@@ -81,7 +94,9 @@ func (or *oracle) checkSeq(items []item, pre, post *snap, hist, step int) {
 	}
 	if !snapEqual(cur, post) {
 		sig := "C10/erc20/state-after-block"
-		if calls == 1 {
+		if trees > 0 {
+			sig = "C10/erc20/tree/state-after-tx"
+		} else if calls == 1 {
 			if items[len(items)-1].ob.ok || last.kind == kEnvSupply {
 				sig = "C10/erc20/state-after-success/" + kindName[last.kind]
 			}
